@@ -25,17 +25,21 @@ def gen_special_form(rng, labs):
     """eq_BUFFER / eq_NOT between a label and a product of two other labels: add_constraint_eq_zero then sees +-(z - x*y)
     (or 1 - z - x*y) and takes its shortcut through a helper PCBO, which has to carry lam along"""
     z, x, y = rng.sample(labs, 3)
-    prod = rng.choice([{"t": "gate", "g": "AND", "args": [{"t": "lbl", "l": C.enc(x)}, {"t": "lbl", "l": C.enc(y)}]},
-                       {"t": "dict", "terms": G.jraw([((x, y), F(1))])}])
-    ops = [{"t": "lbl", "l": C.enc(z)}, prod]
+    lx, ly, lz = ({"t": "lbl", "l": C.enc(v)} for v in (x, y, z))
+    prod = rng.choice([{"t": "gate", "g": "AND", "args": [lx, ly]}, {"t": "dict", "terms": G.jraw([((x, y), F(1))])},
+                       {"t": "gate", "g": "NAND", "args": [lx, ly]}])
+    # either side may come negated (NOT z, NAND(x, y)): the difference is then -z + x*y, z - x*y or 1 - z - x*y, with either
+    # term first
+    ops = [lz if rng.random() < 0.6 else {"t": "gate", "g": "NOT", "args": [lz]}, prod]
     if rng.random() < 0.5:
         ops.reverse()
     lam = rng.choice([F(2), F(1, 2), F(7, 4), F(3)])
-    return {"g": rng.choice(["BUFFER", "BUFFER", "NOT"]), "eq": True, "ops": ops, "lam": [lam.numerator, lam.denominator]}
+    return {"g": rng.choice(["BUFFER", "BUFFER", "NOT", "NOT", "XOR", "XNOR"]), "eq": True, "ops": ops,
+            "lam": [lam.numerator, lam.denominator]}
 
 
 def gen_call(rng, labs, uni):
-    if len(labs) >= 3 and rng.random() < 0.08:
+    if len(labs) >= 3 and rng.random() < 0.1:
         return gen_special_form(rng, labs)
     g = rng.choice(GATES)
     is_eq = rng.random() < 0.55
